@@ -87,6 +87,13 @@ class Frame:
         self.pending = []  # raise exits of callees inlined while evaluating the current statement's expressions
 
 
+def is_alias(t) -> bool:
+    """The term is a path into a parameter or into object state (param, .attr, [key], loop element of such)."""
+    while isinstance(t, App) and (t.op.startswith("attr:") or t.op in ("idx", "elem")) and t.args:
+        t = t.args[0]
+    return isinstance(t, Sym) and t.name.startswith("param:")
+
+
 _KNOWN = []
 
 
@@ -826,7 +833,9 @@ class Evaluator:
             store(mk_list(list(reversed(li))))
         else:
             # unknown mutation: keep a record of it on the local so that later uses see the mutated value
-            if isinstance(target_expr, ast.Name):
+            # (a local that merely names a part of a parameter / of an object's state stays that name: the mutation is an
+            # effect on the object, exactly as when the path is written out in place)
+            if isinstance(target_expr, ast.Name) and not is_alias(recv):
                 st.env[target_expr.id] = App("mutated", (recv, Const(name)) + tuple(args))
 
     def call_term(self, callee, args, kwargs, starkw, e, st, fr):
@@ -1390,6 +1399,9 @@ class Evaluator:
 
     def _symbolic_loop(self, s, it, st, fr):
         assigned = self._assigned_names(s.body)
+        rebound = {x.id for b in s.body for x in ast.walk(b) if isinstance(x, ast.Name) and isinstance(x.ctx, ast.Store)}
+        # names that are only mutated through (never re-assigned) and merely name a part of a parameter / object state keep their value
+        assigned = {n for n in assigned if n in rebound or not is_alias(st.env.get(n))}
         sub = st.copy()
         base_e = len(st.effects)
         for n in assigned:
